@@ -9,9 +9,15 @@
   A history is a list of top-level operations, each run to completion before the next one starts (the body may
   block on a batch in between - invisible at this level).  Values are identity tokens (Nat); parameter names are
   tokens whose numeric order is the alphabetical order of the names (get_args_tuple sorts leftover keywords).
+  For acached_per_instance a body may return a value that refers to its instance (`selfRef`): the decorator keeps
+  the cached values in a dict of its closure, so such a value keeps the instance - and the entry - alive.
 
   The property C13 is the Boolean observer `spec` of each cache: it replays a *reference cache* keyed on the
-  call's normalised arguments (Python's own binding `bind`), and checks every observation against it.
+  call's normalised arguments (Python's own binding `bind`), and checks every observation against it.  The
+  observers know nothing of the implementation's key construction, recency list, closure dict or refresh time;
+  `Alru.Watch.entries` is a recency list of its own (`refTouch`/`refInsert`: keep the `cap` most recently used),
+  and the theorems `C13_alru_kept_below_maxsize_keys` / `C13_alru_evicted_after_maxsize_keys` state the eviction
+  policy without any recency list.
 -/
 namespace AsynqModel.Cache
 
@@ -184,14 +190,21 @@ def perInstRefKey (s : Sig) (c : Call) : Option Key := (perInstBind s c).map (·
 
 /-! ## Decidable hypotheses used by the theorems (which calls a theorem covers) -/
 
-/-- the calls the alru_cache theorem covers: valid (any spelling), or the key construction raises "Missing argument" -/
-def alruCallOK (s : Sig) (c : Call) : Bool := (alruBind s c).isSome || (alruKey .default s c).isNone
+/-- the calls the alru_cache theorem (default key) covers: valid (any spelling), or the key construction raises
+    "Missing argument", or the call carries an unexpected keyword.  NOT covered (and needed: `C13_alru_callOK_needed`):
+    a call Python cannot bind because it passes too many positional arguments or one parameter twice -
+    `get_args_tuple` maps such a call onto the key of a valid call, so it is answered from the cache when that call
+    is cached and raises TypeError when it is not -/
+def alruCallOK (s : Sig) (c : Call) : Bool :=
+  (alruBind s c).isSome || (alruKey .default s c).isNone ||
+    c.kwargs.any (fun p => !(s.args ++ s.kwonly).contains p.1)
 
 /-- does the key tuple contain a `(name, value)` pair (a leftover keyword)? -/
 def hasPair (k : Key) : Bool := k.any fun e => match e with | .pair _ _ => true | .val _ => false
 
 /-- decidable description of the calls the per-instance theorem covers: valid (any spelling), or the key construction
-    itself raises "Missing argument", or the call carries an unexpected keyword -/
+    itself raises "Missing argument", or the call carries an unexpected keyword.  NOT covered (and needed:
+    `C13_per_instance_callOK_needed`): too many positional arguments, one parameter passed twice -/
 def perInstCallOK (s : Sig) (c : Call) : Bool :=
   (perInstBind s c).isSome || (perInstKey s c).isNone ||
     c.kwargs.any (fun p => !(s.args.drop 1 ++ s.kwonly).contains p.1)
@@ -332,16 +345,24 @@ namespace PerInst
 /-! ### acached_per_instance -/
 
 inductive Op where
-  | call (inst : Nat) (c : Call) (raises : Bool)
-  | drop (inst : Nat)          -- the last reference to the instance goes away (weakref callback `clear_cache`)
+  /-- `selfRef`: the value the body returns IF it runs refers to the instance (`return self`, a bound method, a helper
+      object that keeps its owner, ...) -/
+  | call (inst : Nat) (c : Call) (raises : Bool) (selfRef : Bool)
+  | drop (inst : Nat)          -- the program gives up its last reference to the instance (`del obj; gc.collect()`)
   deriving Repr, DecidableEq, Inhabited
 
+/-- the closure dict `cache` of tools.py:179: `id(instance) -> (weakref, {key: value})`.  The values are held STRONGLY
+    by that dict; the entry is deleted by the weakref callback `clear_cache`, i.e. only when the instance is freed. -/
 structure St where
-  insts : List (Nat × List (Key × Val))   -- `cache`: id(instance) -> (weakref, {key: value})
+  insts : List (Nat × List (Key × Val))   -- entries of instances the program can still reach
+  pinned : List Nat    -- reachable instances whose cache holds a value that refers to the instance
+  zombies : Nat        -- entries of instances the program has dropped but that their own cached value keeps alive:
+                       -- the closure dict reaches the value, the value reaches the instance, so the weakref callback
+                       -- never fires and the entry (and the instance) stay for the life of the decorated function
   runs : Nat
   deriving Repr, DecidableEq, Inhabited
 
-def init : St := { insts := [], runs := 0 }
+def init : St := { insts := [], pinned := [], zombies := 0, runs := 0 }
 
 def cacheOf (st : St) (i : Nat) : List (Key × Val) := (st.insts.lookup i).getD []
 
@@ -351,7 +372,7 @@ def store (insts : List (Nat × List (Key × Val))) (i : Nat) (k : Key) (v : Val
 
 /-- `new_fun` (tools.py:190-203) and `clear_cache` (tools.py:185-186) -/
 def step (mk : Call → Option Key) (bd : Call → Option (List Nat)) (st : St) : Op → St × Res
-  | .call i c raises =>
+  | .call i c raises selfRef =>
     -- if instance_key not in cache: cache[instance_key] = (ref, {})      (before the key is computed)
     let insts := if (st.insts.lookup i).isSome then st.insts else st.insts ++ [(i, [])]
     let st1 : St := { st with insts := insts }
@@ -366,12 +387,22 @@ def step (mk : Call → Option Key) (bd : Call → Option (List Nat)) (st : St) 
         | some b =>
           let n := st.runs + 1
           if raises then ({ st1 with runs := n }, .raisedUser n)
-          else ({ insts := store insts i k ⟨n, b⟩, runs := n }, .ok ⟨n, b⟩)
-  | .drop i => ({ st with insts := st.insts.filter fun p => p.1 != i }, .unit)
+          else
+            -- instance_cache[k] = value: from now on the closure dict reaches `value`, and through it the instance
+            let pinned := if selfRef && !st.pinned.contains i then i :: st.pinned else st.pinned
+            ({ st with insts := store insts i k ⟨n, b⟩, pinned := pinned, runs := n }, .ok ⟨n, b⟩)
+  | .drop i =>
+    if st.pinned.contains i then
+      -- the instance is still reachable from its own cache entry: it is not freed, `clear_cache` never runs, the
+      -- entry stays.  The program cannot reach it any more (a new instance gets another id): a zombie entry
+      ({ st with insts := st.insts.filter (fun p => p.1 != i), pinned := st.pinned.filter (· != i),
+                 zombies := st.zombies + 1 }, .unit)
+    else ({ st with insts := st.insts.filter fun p => p.1 != i }, .unit)     -- freed: `del cache[instance_key]`
 
+/-- `extra` = `len(new_fun.__acached_per_instance_cache__)` -/
 def observe (mk : Call → Option Key) (bd : Call → Option (List Nat)) (st : St) (op : Op) : St × Obs :=
   let (st', r) := step mk bd st op
-  (st', { res := r, runs := st'.runs, extra := st'.insts.length })
+  (st', { res := r, runs := st'.runs, extra := st'.insts.length + st'.zombies })
 
 def run (mk : Call → Option Key) (bd : Call → Option (List Nat)) (st : St) : List Op → List Obs
   | [] => []
@@ -381,7 +412,8 @@ def finalState (mk : Call → Option Key) (bd : Call → Option (List Nat)) (st 
   | [] => st
   | op :: ops => finalState mk bd (observe mk bd st op).1 ops
 
-/-- the reference: one cache `Key → Option Val` per live instance -/
+/-- the reference: one cache `Key → Option Val` per live instance; an instance the program has dropped is gone with
+    its cache, WHATEVER its cached values were (the observer does not look at `selfRef`) -/
 structure Watch where
   ref : Nat → Key → Option Val
   live : List Nat
@@ -397,7 +429,7 @@ def watchStep (rk : Call → Option Key) (bd : Call → Option (List Nat)) (w : 
     if ob.res != .unit || ob.runs != w.runs then .error .noop
     else if ob.extra != live.length then .error .instances
     else .ok { ref := fun j => if j == i then fun _ => none else w.ref j, live := live, runs := w.runs }
-  | .call i c raises =>
+  | .call i c raises _ =>
     let live := if w.live.contains i then w.live else w.live ++ [i]
     if ob.extra != live.length then .error .instances else
     let w1 : Watch := { w with live := live }
@@ -446,6 +478,10 @@ def specClause (rk : Call → Option Key) (bd : Call → Option (List Nat)) (ops
   match watchRun rk bd watchInit ops obs with
   | .ok _ => none
   | .error e => some e
+
+/-- decidable hypothesis of `C13_per_instance_refines_partial`: no body returns a value that refers to its instance -/
+def noSelfRef (ops : List Op) : Bool :=
+  ops.all fun op => match op with | .call _ _ _ sr => !sr | .drop _ => true
 
 end PerInst
 
